@@ -40,6 +40,47 @@ TEMPLATE_TAG_PATTERN: re.Pattern[str] = re.compile(
     re.DOTALL,
 )
 
+_TAG_OPENER_RE: re.Pattern[str] = re.compile(
+    "|".join(
+        [
+            SINGLE_JINJA_TAG.open_re,
+            SINGLE_JINJA_COMMENT.open_re,
+            SINGLE_JINJA_VAR.open_re,
+            SINGLE_HTML_COMMENT.open_re,
+        ]
+    )
+)
+_TAG_CLOSER: dict[str, str] = {
+    p.open_delim: p.close_delim
+    for p in (SINGLE_JINJA_TAG, SINGLE_JINJA_COMMENT, SINGLE_JINJA_VAR, SINGLE_HTML_COMMENT)
+}
+
+
+def find_template_tags(text: str) -> list[tuple[int, int]]:
+    """
+    The spans of `TEMPLATE_TAG_PATTERN.finditer(text)`, in time linear in the text.
+
+    With the regex every opener that is never closed (`{{ {{ {{`) scans to the end of the
+    text, which is quadratic in the number of such openers.
+    """
+    spans: list[tuple[int, int]] = []
+    unclosed: set[str] = set()
+    pos = 0
+    while True:
+        opener_match = _TAG_OPENER_RE.search(text, pos)
+        if opener_match is None:
+            return spans
+        opener = opener_match.group(0)
+        closer = _TAG_CLOSER[opener]
+        end = -1 if opener in unclosed else text.find(closer, opener_match.end())
+        if end < 0:
+            unclosed.add(opener)
+            pos = opener_match.start() + 1
+        else:
+            spans.append((opener_match.start(), end + len(closer)))
+            pos = end + len(closer)
+
+
 # Pattern to match paired tags like {% tag %}{% /tag %} that should stay together.
 # Uses paired tag patterns from atomic_patterns.
 PAIRED_TAGS_PATTERN: re.Pattern[str] = re.compile(
